@@ -1074,6 +1074,8 @@ def sys_total(I, g):
             f, lst = _sys_fold(I, g, la, a)
             parts.append(f.at(lst.n))
     I.require("a system has at least one usage pattern", g.lst("usage_patterns").n >= 1)
+    # precondition: the system lists no usage pattern twice (the id-keyed dictionaries would count a repeated one once)
+    g.lst("usage_patterns").dupfree = True
     tot = parts[0]
     for p_ in parts[1:]: tot = mv_add(tot, p_)
     kgf = I.units.literal("kg").f
